@@ -90,9 +90,9 @@ ASpec == AInit /\ [][(\E bs \in ByteStrings : Start(bs)) \/ BoundaryStep \/ Draw
 ADone == pc = "done"
 
 \* candidate defects of the transcription (DESIGN.md section 7, #6 and the sanitizer case found by this model)
-HasOpSpelling(d) == \E j \in DOMAIN d.val : d.val[j].sp \in {"shl", "and"} /\ d.val[j].k \in {"greater", "less"}
+\* (the precedence candidate of operator spellings is repaired: fix 2f72c78)
 HasSanitizer(d) == d.san # <<>>
-Known(d) == HasOpSpelling(d) \/ (HasSanitizer(d) /\ d.vmode = "std")
+Known(d) == HasSanitizer(d) /\ d.vmode = "std"
 
 StepFormAgrees == ADone => out = OpArbInt(D, 1, TMin(D.ty), TMax(D.ty), bytes)
 
